@@ -383,4 +383,243 @@ theorem valid_bridge (re : Regex) : ∀ (f : Nat) (n : Node) (w : SJson), wf n =
               rw [toLiteP_eq_map]
               exact List.mem_map.mpr ⟨(k, x), hmem, rfl⟩
 
+
+/-! ### `wf` is an invariant of `add` -/
+
+theorem namesNodup_iff (xs : List (List Char)) : namesNodup xs = true ↔ xs.Nodup := by
+  induction xs with
+  | nil => simp [namesNodup]
+  | cons x r ih =>
+    simp only [namesNodup, Bool.and_eq_true, Bool.not_eq_true', List.nodup_cons, ih]
+    constructor
+    · rintro ⟨h1, h2⟩
+      refine ⟨?_, h2⟩
+      intro hm
+      have : r.contains x = true := by simpa using hm
+      rw [this] at h1; exact absurd h1 (by simp)
+    · rintro ⟨h1, h2⟩
+      refine ⟨?_, h2⟩
+      cases hc : r.contains x with
+      | false => rfl
+      | true => exact absurd (by simpa using hc) h1
+
+theorem mem_names_upsert (ps : List (Key × Node)) (k : Key) (n : Node) (k' : Key) :
+    k' ∈ (upsert ps k n).map (·.1) ↔ k' ∈ ps.map (·.1) ∨ k' = k := by
+  induction ps with
+  | nil => simp [upsert]
+  | cons p r ih =>
+    obtain ⟨k1, n1⟩ := p
+    simp only [upsert]
+    by_cases hk : (k == k1) = true
+    · have e : k = k1 := by simpa using hk
+      subst e
+      simp only [hk, if_true, List.map_cons, List.mem_cons]
+      constructor
+      · intro h; exact Or.inl h
+      · rintro (h | h)
+        · exact h
+        · exact Or.inl h
+    · rw [if_neg hk]
+      simp only [List.map_cons, List.mem_cons, ih]
+      constructor
+      · rintro (h | h | h)
+        · exact Or.inl (Or.inl h)
+        · exact Or.inl (Or.inr h)
+        · exact Or.inr h
+      · rintro ((h | h) | h)
+        · exact Or.inl h
+        · exact Or.inr (Or.inl h)
+        · exact Or.inr (Or.inr h)
+
+theorem nodup_names_upsert (ps : List (Key × Node)) (k : Key) (n : Node)
+    (h : (ps.map (·.1)).Nodup) : ((upsert ps k n).map (·.1)).Nodup := by
+  induction ps with
+  | nil => simp [upsert]
+  | cons p r ih =>
+    obtain ⟨k1, n1⟩ := p
+    simp only [List.map_cons, List.nodup_cons] at h
+    simp only [upsert]
+    by_cases hk : (k == k1) = true
+    · simp only [hk, if_true, List.map_cons, List.nodup_cons]
+      exact h
+    · rw [if_neg hk]
+      simp only [List.map_cons, List.nodup_cons]
+      refine ⟨?_, ih h.2⟩
+      intro hm
+      rcases (mem_names_upsert r k n k1).mp hm with hm | hm
+      · exact h.1 hm
+      · exact hk (by simp [hm])
+
+theorem wfP_upsert (ps : List (Key × Node)) (k : Key) (n : Node) (h : wfP ps = true)
+    (hn : wf n = true) : wfP (upsert ps k n) = true := by
+  induction ps with
+  | nil => simp [upsert, wfP, hn]
+  | cons p r ih =>
+    obtain ⟨k1, n1⟩ := p
+    simp only [wfP, Bool.and_eq_true] at h
+    simp only [upsert]
+    by_cases hk : (k == k1) = true
+    · simp [hk, wfP, hn, h.2]
+    · rw [if_neg hk]
+      simp [wfP, h.1, ih h.2]
+
+theorem wf_empty : wf Node.empty = true := by
+  simp [Node.empty, wf, wfO, wfP, namesNodup]
+
+theorem wf_lookup_getD (ps : List (Key × Node)) (k : Key) (h : wfP ps = true) :
+    wf ((ps.lookup k).getD .empty) = true := by
+  cases hl : ps.lookup k with
+  | none => simpa using wf_empty
+  | some pn => simpa using wfP_mem h (lookup_mem' ps k pn hl)
+
+theorem contains_names_addProps (kvs : List (Key × LJson)) (ps : List (Key × Node)) (k : Key) :
+    ((addProps ps kvs).map (·.1)).contains k =
+      ((ps.map (·.1)).contains k || (Dcg.Sem.JsonLite.keys kvs).contains k) := by
+  rw [← lookup_isSome_iff, ← lookup_isSome_iff, addProps_lookup_isSome]
+
+theorem wf_mk {nu bo st : Bool} {nm : Option NumT} {ar : Option Node} {ho : Bool}
+    {ps : List (Key × Node)} {rq : List Key} :
+    wf (.mk nu bo st nm ar ho ps rq) = true ↔
+      (wfO ar = true ∧ wfP ps = true ∧ namesNodup (ps.map (·.1)) = true ∧
+        rq.all (fun k => (ps.map (·.1)).contains k) = true) := by
+  simp [wf, and_assoc]
+
+mutual
+theorem add_wf : ∀ (v : LJson) (n : Node), wf n = true → wf (add n v) = true
+  | .null, .mk .., h => by rw [add]; exact wf_mk.mpr (wf_mk.mp h)
+  | .bool _, .mk .., h => by rw [add]; exact wf_mk.mpr (wf_mk.mp h)
+  | .str _, .mk .., h => by rw [add]; exact wf_mk.mpr (wf_mk.mp h)
+  | .int _, .mk .., h => by rw [add]; exact wf_mk.mpr (wf_mk.mp h)
+  | .flt _, .mk .., h => by rw [add]; exact wf_mk.mpr (wf_mk.mp h)
+  | .arr xs, .mk nu bo st nm ar ho ps rq, h => by
+    rw [add]
+    obtain ⟨h1, h2, h3, h4⟩ := wf_mk.mp h
+    refine wf_mk.mpr ⟨?_, h2, h3, h4⟩
+    simp only [wfO]
+    apply addList_wf xs
+    cases ar with
+    | none => simpa using wf_empty
+    | some items => simpa [wfO] using h1
+  | .obj kvs, .mk nu bo st nm ar ho ps rq, h => by
+    rw [add]
+    obtain ⟨h1, h2, h3, h4⟩ := wf_mk.mp h
+    obtain ⟨g2, g3⟩ := addProps_wf kvs ps h2 h3
+    refine wf_mk.mpr ⟨h1, g2, g3, ?_⟩
+    rw [List.all_eq_true]
+    intro r hr
+    rw [contains_names_addProps]
+    cases ho with
+    | true =>
+      simp only [if_true] at hr
+      have := (List.all_eq_true.mp h4) r (List.mem_filter.mp hr).1
+      rw [this]; rfl
+    | false =>
+      simp only [Bool.false_eq_true, if_false] at hr
+      have := (dedup_mem (Dcg.Sem.JsonLite.keys kvs) r).mp hr
+      have : (Dcg.Sem.JsonLite.keys kvs).contains r = true := by simpa using this
+      rw [this]; simp
+theorem addList_wf : ∀ (xs : List LJson) (n : Node), wf n = true → wf (addList n xs) = true
+  | [], _, h => by simpa [addList] using h
+  | x :: xs, n, h => by
+    simp only [addList]
+    exact addList_wf xs _ (add_wf x n h)
+theorem addProps_wf : ∀ (kvs : List (Key × LJson)) (ps : List (Key × Node)), wfP ps = true →
+    namesNodup (ps.map (·.1)) = true →
+    wfP (addProps ps kvs) = true ∧ namesNodup ((addProps ps kvs).map (·.1)) = true
+  | [], _, h1, h2 => by simpa [addProps] using ⟨h1, h2⟩
+  | (k, v) :: r, ps, h1, h2 => by
+    simp only [addProps]
+    apply addProps_wf r
+    · exact wfP_upsert ps k _ h1 (add_wf v _ (wf_lookup_getD ps k h1))
+    · exact (namesNodup_iff _).mpr (nodup_names_upsert ps k _ ((namesNodup_iff _).mp h2))
+end
+
+/-- every inferred schema satisfies the invariant -/
+theorem infer_wf (v : LJson) : wf (infer v) = true := add_wf v _ wf_empty
+
+/-! ### `wf` puts the schema inside C03's `InSubset` -/
+
+theorem allInSubset_append (as bs : List Schema) :
+    Schema.allInSubset (as ++ bs) = (Schema.allInSubset as && Schema.allInSubset bs) := by
+  induction as with
+  | nil => simp [Schema.allInSubset]
+  | cons a r ih => simp [Schema.allInSubset, ih, Bool.and_assoc]
+
+theorem ofAlts_inSubset (as : List Schema) (h : Schema.allInSubset as = true) :
+    (ofAlts as).inSubset = true := by
+  match as, h with
+  | [], _ => simp [ofAlts, Schema.inSubset]
+  | [a], h => simpa [ofAlts, Schema.allInSubset] using h
+  | a :: b :: r, h => simpa [ofAlts, Schema.inSubset] using h
+
+theorem plain_inSubset (ty : STy) : (plain ty).inSubset = true := by
+  cases ty <;> decide
+
+theorem scalarAlts_inSubset (bo : Bool) (nm : Option NumT) (st : Bool) :
+    Schema.allInSubset (scalarAlts bo nm st) = true := by
+  cases bo <;> cases st <;> rcases nm with _ | _ | _ <;>
+    simp [scalarAlts, Schema.allInSubset, plain_inSubset]
+
+mutual
+theorem toSchema_inSubset : ∀ n : Node, wf n = true → (toSchema n).inSubset = true
+  | .mk nu bo st nm ar ho ps rq, h => by
+    obtain ⟨h1, h2, h3, h4⟩ := wf_mk.mp h
+    rw [toSchema]
+    apply ofAlts_inSubset
+    simp only [allInSubset_append, Bool.and_eq_true]
+    refine ⟨⟨⟨scalarAlts_inSubset bo nm st, arrAlt_inSubset ar h1⟩, ?_⟩, ?_⟩
+    · cases ho with
+      | false => simp [Schema.allInSubset]
+      | true =>
+        simp only [if_true, Schema.allInSubset, Bool.and_true]
+        unfold objAlt
+        split
+        · simp [Schema.inSubset]
+        · simp only [Schema.inSubset, names_toProps, Bool.and_eq_true]
+          exact ⟨⟨toProps_inSubset ps h2, h3⟩, h4⟩
+    · cases nu <;> simp [Schema.allInSubset, Schema.inSubset]
+theorem arrAlt_inSubset : ∀ ar : Option Node, wfO ar = true → Schema.allInSubset (arrAlt ar) = true
+  | none, _ => by simp [arrAlt, Schema.allInSubset]
+  | some items, h => by
+    simp only [wfO] at h
+    simp [arrAlt, Schema.allInSubset, Schema.inSubset, toSchema_inSubset items h]
+theorem toProps_inSubset : ∀ ps : List (Key × Node), wfP ps = true →
+    Schema.propsInSubset (toProps ps) = true
+  | [], _ => by simp [toProps, Schema.propsInSubset]
+  | (k, n) :: r, h => by
+    simp only [wfP, Bool.and_eq_true] at h
+    simp [toProps, Schema.propsInSubset, toSchema_inSubset n h.1, toProps_inSubset r h.2]
+end
+
+theorem toSchemaRoot_inSubset (n : Node) (h : wf n = true) : (toSchemaRoot n).inSubset = true := by
+  unfold toSchemaRoot
+  split
+  · decide
+  · exact toSchema_inSubset n h
+
+/-- at the root the empty class and the free-form mapping accept the same documents -/
+theorem valid_bridge_root (re : Regex) (f : Nat) (n : Node) (w : SJson) (hw : wf n = true)
+    (hf : fuel n ≤ f) (hv : validL n (toLite w) = true) :
+    validJ re f [] (toSchemaRoot n) w = true := by
+  unfold toSchemaRoot
+  split
+  · rename_i he
+    have h3 := fuel_pos n
+    obtain ⟨f', rfl⟩ : ∃ f', f = f' + 1 := ⟨f - 1, by omega⟩
+    obtain ⟨nu, bo, st, nm, ar, ho, ps, rq⟩ := n
+    simp only [onlyEmptyObject, Node.hasObj, Node.null, Node.bool, Node.str, Node.num, Node.arr,
+      Node.props, Node.req, Bool.and_eq_true, Bool.not_eq_true', Option.isNone_iff_eq_none,
+      List.isEmpty_iff] at he
+    obtain ⟨⟨⟨⟨⟨⟨⟨e1, e2⟩, e3⟩, e4⟩, e5⟩, e6⟩, e7⟩, e8⟩ := he
+    subst e1 e2 e3 e4 e5 e6 e7 e8
+    cases w with
+    | obj kvs => simp [validJ]
+    | num d =>
+      simp only [toLite] at hv
+      split at hv <;> simp [validL, Node.isEmpty, Node.null, Node.bool, Node.str, Node.num,
+        Node.arr, Node.hasObj] at hv
+    | _ => simp [toLite, validL, Node.isEmpty, Node.null, Node.bool, Node.str, Node.num,
+        Node.arr, Node.hasObj] at hv
+  · exact valid_bridge re f n w hw hf hv
+
 end Dcg.Proofs.InferBridge
